@@ -70,7 +70,9 @@ def payload(i):
     """distinct payloads, lengths 0..5, chunk 2 is empty"""
     if i == 2:
         return b""
-    return bytes([(17 * i + 3) % 251 + 1]) * (i % 5 + 1) + bytes([i % 256])
+    b = bytes([(17 * i + 3) % 251 + 1]) * (i % 5 + 1) + bytes([i % 256])
+    # encoders hand over bytes or bytearray (compressed_segmentation)
+    return bytearray(b) if i % 3 == 1 else b
 
 
 def new_dataset_dir(cfg, tag="sh", two_scales=False):
@@ -191,11 +193,11 @@ def check_closed(cfg, d, stored, chunks, order, vio, pkg=True, spec=True,
                                 "the stored bytes", repr(exc)[:300])
                     continue
                 if i in stored:
-                    if bytes(got) != payload(i):
+                    if bytes(got) != bytes(payload(i)):
                         c2 = dict(case)
                         c2["fetch"] = i
                         vio.add("C05/fetch/wrong-bytes", c2,
-                                payload(i).hex(), bytes(got).hex()[:200])
+                                bytes(payload(i)).hex(), bytes(got).hex()[:200])
                 elif len(got) != 0:
                     c2 = dict(case)
                     c2["fetch"] = i
@@ -229,10 +231,10 @@ def check_closed(cfg, d, stored, chunks, order, vio, pkg=True, spec=True,
                             "chunk id %d in %s" % (
                                 cid, os.path.basename(path)),
                             "no such entry at the minishard's slot")
-                elif got != payload(i):
+                elif got != bytes(payload(i)):
                     c2 = dict(case)
                     c2["fetch"] = i
-                    vio.add("C04/spec/wrong-bytes", c2, payload(i).hex(),
+                    vio.add("C04/spec/wrong-bytes", c2, bytes(payload(i)).hex(),
                             got.hex()[:200])
             elif got:
                 c2 = dict(case)
